@@ -17,6 +17,7 @@ def showSegs (t : Tracker.T) : String :=
 structure St where
   trk : Tracker.T := []
   world : DriverWorld.DSt := {}
+  fs : Fs := []
 
 /-- tracker ops: `T new | T add a b | T rm a b | T co | T reset` -/
 def stepTracker (s : St) (args : List String) : St × String :=
@@ -64,10 +65,62 @@ def stepChecksum (args : List String) : String :=
     | _, _, _, _, _ => "bad-op"
   | _ => "bad-op"
 
+/-! filestore ops (reference model of C17): `F new | create p | delete p | rename a b | replace a b |
+mkdir p | rmdir p 0|1 | trunc p | write p hex off | read p off len|- | size p | exists p | isdir p` -/
+def showFsErr : FsErr → String
+  | .fileNotFound => "exc FileNotFoundError" | .permission => "exc PermissionError"
+  | .isADirectory => "exc IsADirectoryError" | .notADirectory => "exc NotADirectoryError"
+  | .valueError => "exc ValueError" | .checksumNotImplemented => "exc ChecksumNotImplemented"
+
+def stepFs (fs : Fs) (args : List String) : Fs × String :=
+  let snap (f : Fs) := " | " ++ DriverWorld.showFs f
+  match args with
+  | ["new"] => ([], "ok" ++ snap [])
+  | ["create", p] => let r := Fs.createFile fs p; (r.2, s!"code={r.1}" ++ snap r.2)
+  | ["delete", p] => let r := Fs.deleteFile fs p; (r.2, s!"code={r.1}" ++ snap r.2)
+  | ["rename", a, b] =>
+    match Fs.renameFileE fs a b with
+    | .ok r => (r.2, s!"code={r.1}" ++ snap r.2)
+    | .error e => (fs, showFsErr e ++ snap fs)
+  | ["replace", a, b] => let r := Fs.replaceFile fs a b; (r.2, s!"code={r.1}" ++ snap r.2)
+  | ["mkdir", p] =>
+    match Fs.createDirectoryE fs p with
+    | .ok r => (r.2, s!"code={r.1}" ++ snap r.2)
+    | .error e => (fs, showFsErr e ++ snap fs)
+  | ["rmdir", p, r] => let x := Fs.removeDirectory fs p (r == "1"); (x.2, s!"code={x.1}" ++ snap x.2)
+  | ["trunc", p] =>
+    match Fs.truncateFile fs p with
+    | .ok f => (f, "ok" ++ snap f)
+    | .error e => (fs, showFsErr e ++ snap fs)
+  | ["write", p, hex, off] =>
+    match Util.bytesOfHex hex, off.toNat? with
+    | some d, some o =>
+      match Fs.writeData fs p d o with
+      | .ok f => (f, "ok" ++ snap f)
+      | .error e => (fs, showFsErr e ++ snap fs)
+    | _, _ => (fs, "bad-op")
+  | ["read", p, off, len] =>
+    match off.toNat? with
+    | some o =>
+      match Fs.readData fs p o (if len == "-" then none else len.toNat?) with
+      | .ok d => (fs, "data=" ++ Util.hexOrDash d ++ snap fs)
+      | .error e => (fs, showFsErr e ++ snap fs)
+    | none => (fs, "bad-op")
+  | ["size", p] =>
+    match Fs.fileSize fs p with
+    | .ok n => (fs, s!"size={n}" ++ snap fs)
+    | .error e => (fs, showFsErr e ++ snap fs)
+  | ["exists", p] => (fs, s!"ret={Fs.exists' fs p}" ++ snap fs)
+  | ["isdir", p] => (fs, s!"ret={Fs.isDir fs p}" ++ snap fs)
+  | _ => (fs, "bad-op")
+
 def step (s : St) (line : String) : St × String :=
   match (line.trimAscii.toString.splitOn " ").filter (· ≠ "") with
   | "T" :: rest => stepTracker s rest
   | "K" :: rest => (s, stepChecksum rest)
+  | "F" :: rest =>
+    let (f, o) := stepFs s.fs rest
+    ({ s with fs := f }, o)
   | "W" :: rest =>
     let (d, o) := DriverWorld.stepLine s.world rest
     ({ s with world := d }, o)
